@@ -96,3 +96,31 @@ impl RawWs {
     }
     pub fn exchange(&mut self, frame: &[u8]) -> Result<Vec<u8>, String> { self.send(frame)?; self.recv(Duration::from_secs(10)) }
 }
+
+/// One blocking TCP server for `router` on an ephemeral loopback port (C03: one router per transport).
+pub fn start_tcp(router: Router) -> SocketAddr {
+    let srv = Server::new(router);
+    let l = srv.listen("127.0.0.1:0").unwrap();
+    let a = l.local_addr().unwrap();
+    std::thread::spawn(move || { let _ = srv.serve(l); });
+    a
+}
+/// One async TCP server for `router`.
+pub fn start_async(router: Router) -> SocketAddr {
+    runtime().block_on(async {
+        let al = AsyncServer::listen("127.0.0.1:0").await.unwrap();
+        let a = al.local_addr().unwrap();
+        let asrv = AsyncServer::new(router);
+        tokio::spawn(async move { let _ = asrv.serve(al).await; });
+        a
+    })
+}
+/// One WebSocket server (already configured by the caller) at path `/repe`.
+pub fn start_ws(server: WebSocketServer) -> SocketAddr {
+    runtime().block_on(async {
+        let wl = WebSocketServer::listen("127.0.0.1:0").await.unwrap();
+        let a = wl.local_addr().unwrap();
+        tokio::spawn(async move { let _ = server.serve_listener(wl, "/repe").await; });
+        a
+    })
+}
